@@ -461,16 +461,27 @@ def c01b(F, R):
             continue
         done = True
         kill = ret = False
-        for s in b["stmts"][i + 1:pub]:
+        kl = {}  # local holding the kill set -> whether ra was added to it under calls_to().is_some()
+        for s in b["stmts"][:pub]:
+            if s.get("k") == "Let" and s["pat"].get("k") == "PBinding" and s.get("init") and mentions_call(s["init"], "kill_reg"):
+                kl[s["pat"]["name"]] = False
+                continue
             e = s.get("e") or {}
             while e.get("k") in ("DropTemps", "Use"):
                 e = e["e"]
-            if e.get("k") == "AssignOp" and e["op"] == "SubAssign" and ekey(e["l"]) == OUT and mentions_call(e["r"], "kill_reg"):
-                kill = True
+            if e.get("k") == "AssignOp" and e["op"] == "SubAssign" and ekey(e["l"]) == OUT:
+                if mentions_call(e["r"], "kill_reg"):
+                    kill = True
+                for nm, has_ra in kl.items():
+                    if any(x.get("k") == "Path" and x.get("res") == nm for x in walk(e["r"], pats=False)):
+                        kill = True
+                        ret = ret or has_ra
             if e.get("k") == "If" and mentions_call(e["cond"], "calls_to") and mentions_call(e["cond"], "is_some"):
                 for m in walk(e["then"]):
                     if m.get("k") == "AssignOp" and m["op"] == "SubAssign" and ekey(m["l"]) == OUT and mentions_call(m["r"], "return_addr_set"):
                         ret = True
+                    if m.get("k") == "AssignOp" and m["op"] == "BitOrAssign" and ekey(m["l"]) in kl and mentions_call(m["r"], "return_addr_set"):
+                        kl[ekey(m["l"])] = True
         if kill:
             R.ok("kill", detail=f"{OUT} -= node.kill_reg() unconditionally before set_reg_values_out", where=loc(b["stmts"][i]))
         else:
@@ -1341,3 +1352,157 @@ def c02f(F, R):
             R.ok(name, detail=f"{name}() = {end}.{sorted(need)[0] if 'live' in sorted(need)[0] else sorted(need)[1]}() & {[n for n in need if n.endswith('_set')][0]}()")
         else:
             R.bad(name, f"Function::{name} is no longer `{end}.{[n for n in need if n.startswith('live')][0]}() & Register::{[n for n in need if n.endswith('_set')][0]}()` (calls {sorted(calls)}, ops {[b['op'] for b in ands]})", f["sp"])
+
+
+@rule("C01", "C01.f.rewrites-do-not-resurrect", floor=4)
+def c01f(F, R):
+    """a rewrite rule of the value analysis that loops over a map and inserts under the loop's key must loop over the map it writes (the post-kill/gen `out` map) or test that the out map still holds the looped value: a fact the node has just killed or overwritten must not be re-inserted from the `in` map"""
+    avp = [q for q in F.fns if q.endswith("AvailableValuePass as riscv_analysis::passes::generation_pass::GenerationPass>::run") or q.endswith("AvailableValuePass as riscv_analysis::passes::GenerationPass>::run")]
+    if not avp:
+        avp = [F.method("riscv_analysis::analysis::available::AvailableValuePass", "run", trait="GenerationPass")]
+    run = F.fn(avp[0])
+    helpers = sorted({callee_of(n) for n in walk(run["hir"]["value"], pats=False) if n.get("k") == "Call" and (callee_of(n) or "").startswith("riscv_analysis::analysis::available::")} - {None})
+    bodies = [(h, F.fn(h)) for h in helpers if h in F.fns and "hir" in F.fns[h]] + [(avp[0], run)]
+    n_ins = 0
+    for q, f in bodies:
+        params = {x.get("name"): (x.get("ty") or "") for x in f["hir"]["params"]}
+        mut_maps = {n for n, t in params.items() if t.startswith("&mut ") and "AvailableValueMap" in t}
+        if q == avp[0]:
+            mut_maps = {s_["pat"]["name"] for s_ in walk(f["hir"]["value"], pats=False) if s_.get("k") == "Let" and s_["pat"].get("k") == "PBinding" and "AvailableValueMap" in (s_["pat"].get("ty") or "") and "Mut" in (s_["pat"].get("mode") or "")}
+        for fl in for_loops(f["hir"]["value"]):
+            binds = [b["name"] for b in walk(fl["pat"]) if b.get("k") == "PBinding"]
+            if not binds:
+                continue
+            key = binds[0]
+            val = binds[1] if len(binds) > 1 else None
+            it_root = None
+            x = peel(fl["iter"])
+            while x.get("k") in ("MethodCall", "AddrOf", "Unary"):
+                x = peel(x.get("recv") or x.get("e") or x.get("a"))
+            if x.get("k") == "Path":
+                it_root = x.get("res")
+            pm = None
+            for ins in walk(fl["body"], pats=False):
+                if not (ins.get("k") == "MethodCall" and ins["name"] == "insert" and len(ins["args"]) == 2):
+                    continue
+                tgt = ekey(ins["recv"]).lstrip("*&")
+                if tgt not in mut_maps:
+                    continue
+                k0 = ekey(ins["args"][0]).lstrip("*&").replace(".clone()", "")
+                if k0 != key:
+                    continue
+                n_ins += 1
+                rid = f"{short(q)}|{tgt}<-{it_root}"
+                if it_root == tgt:
+                    R.ok(rid, detail=f"{short(q)}: rewrites `{tgt}` while iterating a copy of `{tgt}` itself", where=loc(ins))
+                    continue
+                # guarded by `tgt.get(key) == Some(val)` (or contains/matches on tgt)?
+                if pm is None:
+                    from .p_parse import parent_map
+                    pm = parent_map(fl["body"])
+                guarded = False
+                y = ins
+                while id(y) in pm:
+                    y = pm[id(y)]
+                    if y.get("k") == "If":
+                        c = list(walk(y["cond"], pats=False))
+                        reads_tgt = any(m.get("k") == "MethodCall" and m["name"] in ("get", "contains_key") and ekey(m["recv"]).lstrip("*&") == tgt and m["args"] and ekey(m["args"][0]).lstrip("*&") == key for m in c)
+                        uses_val = val is None or any(m.get("k") == "Path" and m.get("res") == val for m in c)
+                        if reads_tgt and uses_val:
+                            guarded = True
+                if guarded:
+                    R.ok(rid, detail=f"{short(q)}: insert into `{tgt}` is conditional on `{tgt}` still holding the looped entry", where=loc(ins))
+                else:
+                    R.bad(rid, f"{short(q)} inserts into `{tgt}` under every key of `{it_root}`: when the node has just overwritten or killed that key (`sw zero,0(sp); lw t0,0(sp); li t0,7` or a second store to the slot) the old x0-based value is written back over the new one and a false constant is claimed", loc(ins))
+    if n_ins == 0:
+        raise Anchor("no keyed insert inside a loop found in the rewrite rules")
+
+
+@rule("C01", "C01.g.memory-facts-respect-access-width", floor=2)
+def c01g(F, R):
+    """a stack-slot fact stands for a whole word: only a word store may generate it (a narrower store must not claim the whole register value) and only a word load may copy it into a register"""
+    LT = "riscv_analysis::parser::inst::LoadType"
+    ST = "riscv_analysis::parser::inst::StoreType"
+    gp = F.method(PNODE, "gen_memory_value", trait="HasGenValueInfo")
+    m = self_match(F, gp, PNODE)
+    arms = dict(arm_table(m))
+    st = arms.get("Store")
+    if st is None:
+        raise Anchor("gen_memory_value has no Store arm")
+    claims = [c for c in walk(st["body"], pats=False) if c.get("k") == "Call" and short(callee_of(c) or "") == "Some"]
+    mentions_width = any(n.get("k") == "Path" and (n.get("res") or "").startswith(ST + "::") for n in walk(st["body"])) or \
+        any(n.get("k") == "Path" and (n.get("res") or "").startswith(ST + "::") for n in walk(st.get("guard") or {}))
+    if not claims:
+        R.ok("store", detail="stores generate no memory fact")
+    elif mentions_width:
+        R.ok("store", detail="the Store arm of gen_memory_value distinguishes the store width")
+    else:
+        R.bad("store", "gen_memory_value claims `slot = rs2` for every StoreType: after `sb t0, 0(sp)` the slot is claimed to hold the whole of t0 (0x1234) while memory holds one byte of it; `lw` then copies the false value into a register", loc(st))
+    # loads: wherever a register receives the slot's value, the load width must be consulted
+    gr = F.method(PNODE, "gen_reg_value", trait="HasGenValueInfo")
+    m2 = self_match(F, gr, PNODE)
+    ld = dict(arm_table(m2)).get("Load")
+    width_in_gen = ld is not None and any(n.get("k") == "Path" and (n.get("res") or "").startswith(LT + "::") for n in list(walk(ld["body"])) + list(walk(ld.get("guard") or {})))
+    rv = [q for q in F.fns if q.endswith("analysis::available::rule_value_from_stack")]
+    if not rv:
+        raise Anchor("rule_value_from_stack not found")
+    f = F.fn(rv[0])
+    width_in_rule = any(n.get("k") == "Path" and (n.get("res") or "").startswith(LT + "::") for n in walk(f["hir"]["value"])) or \
+        any(n.get("k") == "MethodCall" and "width" in n["name"] for n in walk(f["hir"]["value"], pats=False))
+    if width_in_gen or width_in_rule:
+        R.ok("load", detail="the load width is consulted before a slot's value is copied into a register")
+    else:
+        R.bad("load", "rule_value_from_stack copies the slot's word value into the destination of every LoadType: after `sw t0, 0(sp)` with t0 = 0x1234, `lb t1, 0(sp)` is claimed to give 0x1234 (the machine gives 0x34)", f["sp"])
+
+
+@rule("C01", "C01.h.kill-reaches-values", floor=2)
+def c01h(F, R):
+    """a fact whose *value* is written in terms of the current contents of a register (RegisterWithScalar / MemoryAtRegister built from an operand register) is dropped from both the register map and the memory map when the node overwrites that register"""
+    AV = "riscv_analysis::analysis::available::AvailableValue"
+    # CUR: variants constructed from an instruction's own operand register
+    cur = set()
+    for q, g in F.fns.items():
+        if "hir" not in g or not q.startswith("riscv_analysis::analysis::") and "riscv_analysis::analysis::" not in q:
+            continue
+        for c in walk(g["hir"]["value"], pats=False):
+            if c.get("k") == "Call" and (callee_of(c) or "").startswith(AV + "::") and c["args"]:
+                a0 = c["args"][0]
+                if any(x.get("k") == "Field" and x.get("name") in ("rs1", "rs2") for x in walk(a0, pats=False)):
+                    cur.add(short(callee_of(c)))
+    if not cur:
+        raise Anchor("no AvailableValue variant is built from an operand register")
+    f = _avpass_run(F)
+    setters = fact_setters(F)
+    body = f["hir"]["value"]
+    kill_locals = {s_["pat"]["name"] for s_ in walk(body, pats=False) if s_.get("k") == "Let" and s_["pat"].get("k") == "PBinding" and s_.get("init") and mentions_call(s_["init"], "kill_reg")}
+
+    def forgetter(m):
+        c = callee_of(m)
+        if not c or c not in F.fns or "hir" not in F.fns[c]:
+            return None
+        g = F.fns[c]
+        gb = [g["hir"]["value"]] + [F.fns[x]["hir"]["value"] for x in F.closures_of(c) if "hir" in F.fns[x]]
+        has_retain = any(n.get("k") == "MethodCall" and n["name"] in ("retain", "remove") for b in gb for n in walk(b, pats=False))
+        seen = {short(v) for b in gb for n in walk(b) for k_, v in (pat_variants(n) if n.get("k", "").startswith("P") else []) if k_ == "path" and v and v.startswith(AV + "::")}
+        if not has_retain or not seen:
+            return None
+        return seen
+    for fld, what in (("reg_values_out", "register"), ("memory_values_out", "memory")):
+        seed = "reg_values_in" if what == "register" else "memory_values_in"
+        roots = {s_["pat"]["name"] for s_ in walk(body, pats=False) if s_.get("k") == "Let" and s_["pat"].get("k") == "PBinding" and s_.get("init") and peel(s_["init"]).get("k") == "MethodCall" and peel(s_["init"])["name"] == seed}
+        hits = []
+        for m in walk(body, pats=False):
+            if m.get("k") == "MethodCall" and ekey(m["recv"]).lstrip("&*") in roots:
+                seen = forgetter(m)
+                if seen is None:
+                    continue
+                fed = any((x.get("k") == "Path" and x.get("res") in kill_locals) or (x.get("k") == "MethodCall" and x["name"] == "kill_reg") for a in m["args"] for x in walk(a, pats=False))
+                hits.append((m, seen, fed))
+        good = [h for h in hits if h[2] and cur <= h[1]]
+        if good:
+            R.ok(what, detail=f"{what} map: `{ekey(good[0][0]['recv'])}.{good[0][0]['name']}(kill set)` drops values built on {sorted(cur)}", where=loc(good[0][0]))
+        elif hits:
+            m, seen, fed = hits[0]
+            R.bad(what, f"{what} map: `{m['name']}` covers {sorted(seen)} (fed by the kill set: {fed}) but values of kind {sorted(cur - seen)} also name a current register", loc(m))
+        else:
+            R.bad(what, f"the {what} map keeps values of kind {sorted(cur)} after the register they name is overwritten: `sw a0,0(sp); li a0,9; lw t1,0(sp)` claims slot = 9 and t1 = a0", f["sp"])
